@@ -73,6 +73,10 @@ func evoSchema(v evoVariant, v2 bool) *schema.Schema {
 		{Kind: "struct", Name: "ViaStruct", Fields: []schema.Field{sf("s", schema.Simple("InStruct")), tail("tail2")}},
 		{Kind: "struct", Name: "ViaStructArray", Fields: []schema.Field{sf("ss", schema.ArrayOf(schema.Simple("InStruct"))), tail("tail2")}},
 		{Kind: "message", Name: "ViaMessage", Fields: []schema.Field{smf(1, "w", schema.Simple("InMessage")), smf(2, "tail2", schema.Simple("int32"))}},
+		// the union-inline message referenced by name from other records (its own reader templates)
+		{Kind: "struct", Name: "MemberInStruct", Fields: []schema.Field{sf("e", schema.Simple("EvoB")), tail("tail")}},
+		{Kind: "struct", Name: "MemberInArray", Fields: []schema.Field{sf("es", schema.ArrayOf(schema.Simple("EvoB"))), tail("tail")}},
+		{Kind: "message", Name: "MemberInMessage", Fields: []schema.Field{smf(1, "e", schema.Simple("EvoB")), smf(2, "tail", schema.Simple("int32"))}},
 		{Kind: "struct", Name: "ViaMapOfArrays", Fields: []schema.Field{sf("mm", schema.MapOf("int32", schema.ArrayOf(schema.Simple("Evo")))), tail("tail2")}},
 	}
 	return &schema.Schema{Defs: defs}
@@ -81,6 +85,7 @@ func evoSchema(v evoVariant, v2 bool) *schema.Schema {
 var c04Contexts = map[string]string{
 	"Evo": "top-level", "InStruct": "struct-field", "InArray": "array-element", "InMap": "map-value", "InMessage": "message-field",
 	"UBranch": "union-branch-message(top)", "InUnionBranch": "union-branch-message", "UCarrier": "union-branch-struct(top)", "InUnionStructBranch": "union-branch-struct",
+	"MemberInStruct": "inline-member-as-struct-field", "MemberInArray": "inline-member-as-array-element", "MemberInMessage": "inline-member-as-message-field",
 	"ViaStruct": "via-struct", "ViaStructArray": "via-struct-array", "ViaMessage": "via-message", "ViaMapOfArrays": "map-of-arrays",
 }
 
@@ -160,7 +165,7 @@ func restrictDef(c1, c2 *codec.Ctx, d1, d2 *schema.Def, v any) any {
 
 func runC04(args []string) {
 	r := core.NewRun("C04", "exploration")
-	r.Rule = "pairs of schema versions (v1, v2): v2 adds message fields with fresh higher indices (scalars, strings, arrays, nested struct/message, map, index 255) and/or still transmits a field v1 has marked deprecated; the evolved message sits in 13 contexts " +
+	r.Rule = "pairs of schema versions (v1, v2): v2 adds message fields with fresh higher indices (scalars, strings, arrays, nested struct/message, map, index 255) and/or still transmits a field v1 has marked deprecated; the evolved message sits in 16 contexts " +
 		"(top level, struct field with a sentinel after it, array element, map value, message field, union branch as the message itself and inside a struct branch, and two levels deep via struct / struct array / message / map of arrays). " +
 		"Both versions are generated and compiled; values of v2 (added fields present and absent) are encoded by v2's encoder and decoded by v1's UnmarshalBebop, DecodeBebop (also 1- and 3-byte chunked), Make<T> and Make<T>FromBytes. " +
 		"Oracle: no error; value == v2 value restricted by the harness to v1's fields (deprecated-in-v1 fields included), every sibling after the evolved message intact; stream position == length of the v2 encoding. " +
